@@ -168,7 +168,7 @@ def children_first(ordered):
 
 def run(ctx, res):
     rng = random.Random(ctx['seed'] * 1000003 + 16)
-    N = tier_scale(ctx['tier'], 1200, 20000) * (3 if ctx['deepen'] else 1)
+    N = tier_scale(ctx['tier'], 2500, 30000) * (3 if ctx['deepen'] else 1)
     jobs = [(shapelib.gen_grammar(rng), rng.randrange(1 << 30)) for _ in range(N)]
     for f in ctx['known']:
         if f['id'] == 'F8' and f['status'] == 'open':
